@@ -28,7 +28,13 @@ func DefaultParams() Params {
 
 // Validate validates a set of params
 func (p Params) Validate() error {
-	return validatePoolCreationFee(p.PoolCreationFee)
+	if err := validatePoolCreationFee(p.PoolCreationFee); err != nil {
+		return err
+	}
+	if p.TaxRate.IsNil() {
+		return fmt.Errorf("tax rate must be set")
+	}
+	return validateTaxRate(p.TaxRate)
 }
 
 // String returns a human readable string representation of the parameters.
